@@ -138,6 +138,17 @@ fn on_alloc(size: usize) {
 			let _ = A_LIVE.try_with(|l| {
 				let nl = l.get() + size as isize;
 				l.set(nl);
+				if nl > 0 && (nl as u64) / 4 > HARD_CAP.load(Ordering::Relaxed) {
+					let case = A_CASE.try_with(|c| c.get()).unwrap_or(0);
+					let mut b1 = [0u8; 20];
+					let mut b2 = [0u8; 20];
+					raw_stderr(b"\nALLOC-OVER-CAP case=");
+					raw_stderr(fmt_u64(case, &mut b1));
+					raw_stderr(b" size=");
+					raw_stderr(fmt_u64(nl as u64, &mut b2));
+					raw_stderr(b" (live)\n");
+					unsafe { libc::_exit(EXIT_ALLOC_OVER_CAP) };
+				}
 				let _ = A_PEAK.try_with(|p| {
 					if nl > p.get() {
 						p.set(nl)
@@ -227,6 +238,25 @@ pub fn track_alloc<T>(case: u64, f: impl FnOnce() -> T) -> (T, AllocStats) {
 		count: A_COUNT.with(|c| c.get()),
 	};
 	(r, st)
+}
+
+/// Open-ended variant of `track_alloc` for loops that cannot be wrapped in a closure:
+/// between `alloc_guard_on(case)` and `alloc_guard_off()` a request above HARD_CAP made by
+/// this thread ends the process with exit 86 and "ALLOC-OVER-CAP case=<case>".
+pub fn alloc_guard_on(case: u64) {
+	A_CASE.with(|c| c.set(case));
+	A_LIVE.with(|l| l.set(0));
+	A_PEAK.with(|p| p.set(0));
+	A_ON.with(|o| o.set(true));
+}
+
+pub fn alloc_guard_off() {
+	A_ON.with(|o| o.set(false));
+}
+
+/// Live bytes allocated by this thread since `alloc_guard_on` (high-water mark).
+pub fn alloc_guard_peak() -> usize {
+	A_PEAK.with(|p| p.get()).max(0) as usize
 }
 
 /// True if the tracking allocator is actually installed in this binary
